@@ -580,6 +580,9 @@ func runC14Handlers(env *Env, rc *RunCtx) {
 		}
 		plan := NoFaults()
 		plan.ParkSQL = stmts
+		if stmts {
+			plan.Sticky = []int{0, 0, 0, 4, 16, 64}[et.Choose(6)]
+		}
 		if et.Bool(1, 3) {
 			for range reqs {
 				plan.StartAfter = append(plan.StartAfter, []int{0, 0, 1, 2, 3}[et.Choose(5)])
